@@ -188,7 +188,11 @@ def judge(case, o, m):
         # the scalar operation yields inf / nan there, whether the array operation yields the same
         # or raises is not what the statement is about (special-value cases go to such edges)
         return [], True
-    rel = 4e-6 if any(l.get("ty") == "npf32" for l in case["leaves"]) else 1e-12
+    f32 = any(l.get("ty") == "npf32" for l in case["leaves"])
+    rel = 4e-6 if f32 else 1e-12
+    # binary32 resolution (6e-8) reaches an uncertainty amplified by whatever cancels in the quadratic
+    # form (correlations of -1 / +1, x - x patterns in a composed formula): judged at 1e-3 there
+    rel_err = 1e-3 if f32 else rel
     if "array_exception" in o:
         fail("exception:" + o["array_exception"].split(":")[0],
              "the array operation raised {} although the operation on every i-th element "
@@ -248,7 +252,7 @@ def judge(case, o, m):
             fail("value", indep=True, what="value of element {} differs from the scalar operation on the {}-th "
                  "elements".format(i, i), impl=e, expected=s, index=i, clause="value")
             break
-        if not _tight(e["error"], s["error"], rel):
+        if not _tight(e["error"], s["error"], rel_err):
             fail("error", indep=True, what="uncertainty of element {} differs from the scalar operation on the "
                  "{}-th elements".format(i, i), impl=e, expected=s, index=i, clause="uncertainty")
             break
@@ -260,7 +264,7 @@ def judge(case, o, m):
         return fails, False
     if exp_kind == "marray":
         for i in range(n):
-            if not _tight(o["values"][i], sc[i]["value"], rel) or not _tight(o["errors"][i], sc[i]["error"], rel):
+            if not _tight(o["values"][i], sc[i]["value"], rel) or not _tight(o["errors"][i], sc[i]["error"], rel_err):
                 fail("values-attr", indep=True, what="result.values/.errors[{}] differ from the scalar result".format(i),
                      impl=[o["values"][i], o["errors"][i]], expected=sc[i], clause="value/uncertainty")
                 return fails, False
